@@ -1,8 +1,28 @@
 """C07 — the operative config records exactly what Gin supplied and suffices to replay."""
 import gen_gin as G
 import gindom
-from gindom import to_driver  # noqa: F401
-from props.c01 import tally, _overlay  # noqa: F401
+from props import c01
+from props.c01 import _overlay  # noqa: F401
+
+
+def _dyn(case):
+  return case.get('dom') == 'dyn'
+
+
+def to_driver(case, impl):
+  if _dyn(case):
+    from props import c19
+    return c19.to_driver(case, impl)
+  return gindom.to_driver(case, impl)
+
+
+def tally(stats, case, impl):
+  if _dyn(case):
+    stats['dynamic_registration_cases'] = stats.get('dynamic_registration_cases', 0) + 1
+    k = 'dyn:operative_replays=' + str(impl.get('operative_replays'))[:12]
+    stats[k] = stats.get(k, 0) + 1
+    return
+  c01.tally(stats, case, impl)
 from encode import decode
 
 ID = 'C07'
@@ -28,6 +48,19 @@ EXPLANATION = ('Lean theorems about the operative parameters computed by phaseA 
 
 def gen_case(rng):
   regs = G.gen_registry(rng, rng.randint(1, 3), w_opaque_default=0.15)
+  # one Python function registered again under another name, with a deny / allow list of its own: which signature
+  # defaults are recorded is a matter of each registration's lists
+  for reg in list(regs):
+    if reg['_kind'] == 'fn' and reg['_api'] == 'external' and rng.random() < 0.5:
+      names = [p[0] for p in reg['sig']['pos'] + reg['sig']['kwonly'] if p[1] is not None]
+      again = dict(reg, obj=len(regs), name='again%d' % reg['obj'], _selector=reg['module'] + '.again%d' % reg['obj'],
+                   _reuse=reg['obj'], _name_arg='again%d' % reg['obj'], allow=[], deny=[])
+      if names and rng.random() < 0.8:
+        if rng.random() < 0.6:
+          again['deny'] = [rng.choice(names)]
+        else:
+          again['allow'] = [rng.choice(names)]
+      regs.append(again)
   ops = list(regs)
   focus = G.rand_scope(rng, 3)
   scopes = [focus[:i] for i in range(len(focus) + 1)] + [['c']]
@@ -257,6 +290,16 @@ def run_robust_case(case):
 def gen_cases(rng, tier, boost=1):
   yield from METHOD_CASES
   yield from ROBUST_CASES
+  # under dynamic registration: files of the C19 generator after which functions bound from Python are called; the
+  # operative text must name (import) what it mentions and parse in a fresh process
+  from props import c19
+  want, seen = (60 if tier == 'quick' else 2000) * boost, 0
+  for case in c19.gen_cases(rng, 'thorough', boost):
+    if case.get('_prog'):
+      yield case
+      seen += 1
+      if seen >= want:
+        break
   yield from SINGLETON_CASES
   n = (900 if tier == 'quick' else 25000) * boost
   for k in range(n):
@@ -264,6 +307,9 @@ def gen_cases(rng, tier, boost=1):
 
 
 def compare(case, impl, model):
+  if _dyn(case):
+    from props import c19
+    return c19.compare(case, impl, model)
   if case.get('_kind') in ('singleton', 'methods', 'robust'):
     return None
   if case.get('_kind') != 'macro':
@@ -287,6 +333,9 @@ def compare(case, impl, model):
 
 def run_impl(case):
   """Normal run, then the replay experiment on the same interpreter state."""
+  if _dyn(case):
+    from props import c19
+    return c19.run_impl(case)
   if case.get('_kind') == 'singleton':
     return run_singleton_case(case)
   if case.get('_kind') == 'methods':
@@ -331,7 +380,7 @@ def run_impl(case):
 
 def _representable(v):
   if isinstance(v, dict):
-    if 'o' in v or 'req' in v or 'set' in v or 'c' in v:
+    if 'o' in v or 'req' in v or 'set' in v or 'c' in v or 'unk' in v:
       return False
     if 'f' in v:
       return v['fin']
@@ -345,6 +394,9 @@ def _representable(v):
 
 def oracle(case, impl):
   """C07 stated directly on the parsed operative_config_str()."""
+  if _dyn(case):
+    from props import c19
+    return c19.oracle(case, impl)
   if case.get('_kind') == 'macro':
     return macro_oracle(case, impl)
   if case.get('_kind') == 'robust':
@@ -463,6 +515,8 @@ def macro_oracle(case, impl):
 
 
 def nontrivial(case, impl):
+  if _dyn(case):
+    return impl.get('operative_replays') is True
   if case.get('_kind') in ('singleton', 'methods', 'robust'):
     return True
   if case.get('_kind') == 'macro':
@@ -479,6 +533,8 @@ def nontrivial(case, impl):
 
 
 def shrink(case):
+  if _dyn(case):
+    return
   if case.get('_kind') in ('singleton', 'methods', 'robust'):
     return
   ops = case['ops']
